@@ -6,7 +6,8 @@
   write <tag> <id> <addr> <hexdata> <flush 0|1> <progress 0|1>
   pkt <chan> <hexdata>             a packet received on port MEM (chan 1..3; the info channel is outside the model)
   disc                             the disconnected callback
-  tester ...                       see `testerStep`
+  treset <id> | tdisc | tread <tag> <start> <size> <cb> | twrite <tag> <start> <size> <cb> | tpkt <chan> <hex>
+                                   the MemoryTester client (replies carry `<tester outs> V<valid>` in addition)
   reply: `<res> <outs> L<lock>`  res = T | F | N | E:<enum> | H ;  outs = `;`-joined or `-`:
          S<chan>:<hex>  RO:<tag>:<id>:<addr>:<hex>  RF:...  WO:<tag>:<id>:<addr>  WF:...  P:<tag>:<pct>
 -/
@@ -47,6 +48,16 @@ def parseBool? (s : String) : Option Bool :=
 structure DSt where
   v : Variant := Variant.code
   st : St := St.init
+  t : Tester := Tester.new 0
+
+def showTOut : TOut → String
+  | .updateFinished cb => s!"TU:{cb}"
+  | .writeFinished cb a => s!"TW:{cb}:{a}"
+
+/-- the reply of an event plus what the tester's callbacks did and the tester's validation flag -/
+def showWithTester (r : Step) (t : Tester) (touts : List TOut) : String :=
+  let ts := if touts.isEmpty then "-" else ";".intercalate (touts.map showTOut)
+  s!"{showStep r} {ts} V{if t.valid then 1 else 0}"
 
 def dstep (d : DSt) (ws : List String) : DSt × String :=
   match ws with
@@ -76,6 +87,34 @@ def dstep (d : DSt) (ws : List String) : DSt × String :=
   | ["disc"] =>
     let r := step d.v d.st .disconnect
     ({ d with st := r.st }, showStep r)
+  | ["treset", id] =>
+    match id.toNat? with
+    | some i => ({ d with t := Tester.new i }, "ok")
+    | none => (d, "bad-op")
+  | ["tdisc"] =>
+    -- MemoryTester.disconnect(): both callbacks forgotten
+    ({ d with t := { d.t with updateCb := none, writeCb := none } }, "ok")
+  | ["tread", tag, start, size, cb] =>
+    match tag.toNat?, start.toNat?, size.toNat?, cb.toNat? with
+    | some t, some a, some n, some c =>
+      let (t', r) := testerRead d.st d.t t a n c
+      ({ d with st := r.st, t := t' }, showWithTester r t' [])
+    | _, _, _, _ => (d, "bad-op")
+  | ["twrite", tag, start, size, cb] =>
+    match tag.toNat?, start.toNat?, size.toNat?, cb.toNat? with
+    | some t, some a, some n, some c =>
+      let (t', r) := testerWrite d.v d.st d.t t a n c
+      ({ d with st := r.st, t := t' }, showWithTester r t' [])
+    | _, _, _, _ => (d, "bad-op")
+  | ["tpkt", chan, data] =>
+    -- a received packet, with the tester's callbacks registered on mem_read_cb / mem_write_cb
+    match chan.toNat?, ofHex? data with
+    | some c, some da =>
+      if c == Gen.C06.chanInfo || c > 3 then (d, "bad-op") else
+      let r := step d.v d.st (.pkt c da)
+      let (t', touts) := testerReact d.t r.outs
+      ({ d with st := r.st, t := t' }, showWithTester r t' touts)
+    | _, _ => (d, "bad-op")
   | _ => (d, "bad-op")
 
 def main : IO Unit := runProto ({} : DSt) dstep
